@@ -52,7 +52,7 @@ func (x *opLogicalOperation) Validate(rootValue cue.Value, cuePath CuePath, bloc
 		case *opLogicalOperation:
 			subLogicalOperation := t.Validate(rootValue, cuePath, blockedRootFields)
 			if subLogicalOperation.HasErrors() {
-				logicalOperation.SetError(subLogicalOperation.GetErrors())
+				logicalOperation.SetError(subLogicalOperation.errorsForParent())
 			}
 
 			logicalOperation.Parts = append(logicalOperation.Parts, subLogicalOperation)
